@@ -1,6 +1,6 @@
 SPECIFICATION Spec
 CONSTANTS MinN = 1  MaxN = 4  NameIdx = {1, 3, 6, 7}  MaxKids = 3  MaxEdges = 6  MaxIso = 0  MaxExtraRoots = 0
-          RootPerm = FALSE  Topo = FALSE  Gen = FALSE
+          RootPerm = FALSE  Topo = FALSE  SkipTaken = TRUE  Gen = FALSE
 VIEW view
 INVARIANT TypeOK
 INVARIANT Acyclic
